@@ -25,8 +25,9 @@ ASSUMPTIONS = [
 # ----------------------------------------------------------------------------
 # Linen filters: JSON encoding  {"t": kind, "v": ...}
 # ----------------------------------------------------------------------------
-NAMES = ['a', 'b', 'c']
-UNIVERSE = ['a', 'b', 'c', 'z']
+# 'a' and 'b' are substrings of 'ab': membership must compare whole names
+NAMES = ['a', 'b', 'ab']
+UNIVERSE = ['a', 'b', 'ab', 'z']
 
 
 def build(f):
@@ -141,7 +142,7 @@ def linen_algebra_exhaustive(case, ctx):
   check_pair(case[0], case[1], UNIVERSE, ctx)
 
 
-NAMES5 = ['a', 'b', 'c', 'd', 'params']
+NAMES5 = ['a', 'b', 'ab', 'd', 'params']
 
 
 def filter_strategy(names=NAMES5, max_depth=4):
